@@ -104,12 +104,15 @@ class Eval:
         n = A.strip(n)
         if n.get("kind") == "DeclRefExpr":
             return (n["referencedDecl"]["id"], n)
+        if n.get("kind") == "MemberExpr":
+            # a struct/union member lvalue is a slot named by its access path
+            return ("member:" + A.src(n).replace(" ", ""), n)
         raise Unknown("unsupported lvalue " + str(n.get("kind")), n)
 
     def _load(self, n):
         i, node = self._lv(n)
         if i not in self.env:
-            raise Unknown("unbound variable " + str(node["referencedDecl"].get("name")), n)
+            raise Unknown("unbound variable " + str((node.get("referencedDecl") or {}).get("name") or i), n)
         return self.env[i]
 
     def _store(self, n, v):
@@ -159,6 +162,11 @@ class Eval:
             return float(n["value"])
         if k in ("CXXNullPtrLiteralExpr", "GNUNullExpr"):
             return 0
+        if k == "MemberExpr":
+            key = "member:" + A.src(n).replace(" ", "")
+            if key in self.env:
+                return self.env[key]
+            raise Unknown("unbound member " + key, n)
         if k == "DeclRefExpr":
             rd = n.get("referencedDecl") or {}
             if rd.get("kind") == "EnumConstantDecl":
